@@ -585,6 +585,23 @@ func (s *session) messages(r *rng, steps int) {
 			s.fail("M%d: read back %s (err %v), wrote %s", k, dig(got), err, dig(orig))
 		}
 		kept = append(kept, keptMsg{got, dig(orig)})
+		// another connection whose peer sends a text that ends inside a character (refused), then a further
+		// connection with a valid text: what one peer did is not held against the next
+		if k%3 == 1 {
+			var bad, good, rep bytes.Buffer
+			ws.WriteFrame(&bad, ws.MaskFrame(ws.NewTextFrame([]byte{'o', 'k', 0xc3})))
+			_, _, e1 := wsutil.ReadClientData(rw{&bad, &rep})
+			txt := []byte(fmt.Sprintf("h\u00e9llo-s%d-k%d", s.idx, k))
+			ws.WriteFrame(&good, ws.MaskFrame(ws.NewTextFrame(txt)))
+			g, _, e2 := wsutil.ReadClientData(rw{&good, &rep})
+			s.rec("M%d badpeer=%v goodpeer=%s err=%v", k, e1, dig(g), e2)
+			if e1 != wsutil.ErrInvalidUTF8 {
+				s.fail("M%d: text ending inside a character: %v", k, e1)
+			}
+			if e2 != nil || !bytes.Equal(g, txt) {
+				s.fail("M%d: a valid text from another peer: got %s, err %v", k, dig(g), e2)
+			}
+		}
 		// a close exchange every few messages: the reason is kept, too
 		if k%4 == 3 {
 			var cw, cr bytes.Buffer
